@@ -6,7 +6,7 @@ package genbank
 //
 // verif:bound C01 records laid out by the harness's independent writer (standard flat-file columns): locus names of 2, 3 or 5 symbolic characters (lower-case letters other than g m o r t u v, last character also a digit), sequence lengths 4, 12, 61 (one, two digits; crossing an ORIGIN line) with every letter symbolic (a-z), molecule types DNA/mRNA/tRNA/rRNA, linear/circular, DEFINITION on one or two lines and ORGANISM with a taxonomy line (one symbolic word each), 0..1 (quick) / 0..2 (thorough) references with PUBMED and REMARK, optional COMMENT block
 // verif:bound C01 feature tables: none; one feature with one qualifier; a feature without qualifiers followed by another; location text on two and on three lines; a qualifier value wrapped onto a continuation line; a value filling its line so that only the closing quote wraps; two features with two qualifiers; a 15-character feature key with a wrapped /translation followed by a wrapped /note. Qualifier values 2 (quick) / 3 (thorough) symbolic bytes over printable ASCII without the double quote (so '/', '=' and inner spaces are included; leading/trailing spaces excluded)
-// verif:bound C01 multi-record clause: ParseMulti on two records with and without final newline, ParseFlat behind a 10-line header; each result compared with parsing that record alone
+// verif:bound C01 multi-record clause: ParseMulti on one or two records with and without final newline, ParseFlat behind a 10-line header; each result compared with parsing that record alone
 // verif:bound C01 long-record clause: a three-record file whose middle record has 60000 (quick) / 52000..140000 (thorough) ORIGIN letters (concrete body, symbolic ends)
 // verif:bound C01 outside the claim: 40 features, 5 records, values long enough to wrap more than once, Read* wrappers and gzip
 
@@ -94,13 +94,19 @@ func c01SameResult(a, b poly.Sequence) bool {
 }
 
 func Harness_C01_MultiRecord() {
-	r1 := c01Record("A", true)
-	r2 := c01Record("B", true)
+	k := 1 + vChoice(2) // a file of one or two records
+	recs := []gRec{c01Record("A", true)}
+	if k == 2 {
+		recs = append(recs, c01Record("B", true))
+	}
 	final := vChoice(2) == 1
 	flat := vChoice(2) == 1
-	text := r1.write(true) + r2.write(final)
+	text := ""
+	for i := range recs {
+		text += recs[i].write(i < k-1 || final)
+	}
 	var got []poly.Sequence
-	var alone1, alone2 poly.Sequence
+	alone := make([]poly.Sequence, k)
 	panicked := vPanics(func() {
 		if flat {
 			hdr := ""
@@ -111,19 +117,22 @@ func Harness_C01_MultiRecord() {
 		} else {
 			got = ParseMulti([]byte(text))
 		}
-		alone1 = Parse([]byte(r1.write(true)))
-		alone2 = Parse([]byte(r2.write(true)))
+		for i := range recs {
+			alone[i] = Parse([]byte(recs[i].write(true)))
+		}
 	})
 	vAssert(!panicked, "multi-parse-does-not-panic")
 	if panicked {
 		return
 	}
-	vAssert(len(got) == 2, "k-records-give-k-results")
-	if len(got) == 2 {
-		vAssert(c01SameResult(got[0], alone1), "each-result-equals-parsing-the-record-alone")
-		vAssert(c01SameResult(got[1], alone2), "each-result-equals-parsing-the-record-alone")
+	vAssert(len(got) == k, "k-records-give-k-results")
+	if len(got) == k {
+		for i := range recs {
+			vAssert(c01SameResult(got[i], alone[i]), "each-result-equals-parsing-the-record-alone")
+		}
 	}
-	vCover("C01 two records without final newline", !final)
+	vCover("C01 two records without final newline", !final && k == 2)
+	vCover("C01 a single record without final newline", !final && k == 1)
 }
 
 // a multi-record file with one long record (well beyond any fixed buffer size)
